@@ -17,7 +17,7 @@ pub fn generate(seed: u64, tier: &str, out: &mut dyn std::io::Write) {
     let rtsig = libc::SIGRTMIN() + 1;
     for i in 0..n {
         let mut r = Rng::for_case(seed, 3, i);
-        let scen = *r.pick(&["ok", "destfail", "destfail", "destpanic", "badapp", "nostop", "ok-signals", "ok-signals", "destfail-signals"]);
+        let scen = *r.pick(&["ok", "destfail", "destfail", "destpanic", "badapp", "nostop", "ok-signals", "ok-signals", "destfail-signals", "stoptimeout", "stoptimeout-signals"]);
         let nblock = r.range(0, 5) as usize;
         let nspin = r.range(0, 2) as usize;
         let args = vec!["-t".to_string(), nblock.to_string(), "-s".to_string(), nspin.to_string(), "-g".to_string()];
@@ -35,6 +35,8 @@ pub fn generate(seed: u64, tier: &str, out: &mut dyn std::io::Write) {
             }
             "destpanic" => dest.panic_at = Some(call),
             "badapp" => cfg.app_memory.push((0x10, 64)),
+            // the SIGSTOP is sent, but the dumper gives up waiting for it to take effect
+            "stoptimeout" | "stoptimeout-signals" => cfg.stop_timeout_ns = Some(0),
             _ => {}
         }
         // signals placed at hook points
